@@ -53,3 +53,13 @@ def register(claim):
           "libstdc++ basic_filebuf behaviour is assumed as stated in Model/OutProto.lean and validated by the fault-injection runs; the translator "
           "must recognise every stream/status statement (otherwise the obligation fails).",
           "Lean 4 proof (abstract interpretation soundness over fault schedules) + extracted protocol + exhaustive fault injection", "DESIGN.md §5 C19")
+    claim("C07",
+          "Lean 4 theorem: for EVERY expression tree over the modelled operators (arithmetic, bitwise, shifts, comparisons, && || with short-circuit, "
+          "?:, comma, unary ! ~ - +, casts to bool/int/short/char/unsigned) to which C++ assigns a value with all operands and results inside int "
+          "(spec cxxEval over the integers, undefined on overflow/UB/division by zero), the model of CPPExpression::evaluate returns exactly that value, "
+          "and it can never return a different integer (c07_eval, c07_never_wrong; structural induction). The integer branch of every case of the "
+          "operator switch, the bison precedence/associativity table and the operator productions of all three grammar copies are re-extracted on "
+          "every run and decided by the kernel. Values recorded in real databases are compared with the model and with g++.",
+          "Partial: literal lexing, implicit enumerator increment and the LALR parse of minimally parenthesised text are covered by correspondence "
+          "and the g++ oracle only. Real/pointer-valued sub-expressions are outside the model.",
+          "Lean 4 proof (evaluator refines C++ integer semantics) + extracted operator/precedence facts + differential correspondence with g++ oracle", "DESIGN.md §5 C07")
